@@ -1061,6 +1061,12 @@ def s_cmp(op, a, b):
             try:
                 if alg_equal(a, b):
                     return op == '=='
+                d = a - b
+                # a single monomial in positive atoms with a non zero (possibly complex) coefficient is not zero
+                if isinstance(d, Poly) and d.is_monomial() and not d.is_zero():
+                    (m, c), = d.t.items()
+                    if all(sy in POSITIVE_ATOMS for sy, _ in m):
+                        return op == '!='
             except Exception:
                 pass
         return Unk(('cmp', op, a, b))
